@@ -62,6 +62,7 @@ fn run_case(seed: u64, lean: &mut Lean, hist: &mut BTreeMap<String, u64>, sample
     for n in names {
         let ks = dbref!().keyspace(n, KeyspaceCreateOptions::default).unwrap();
         if fjall::verif::keyspace_has_compaction_filter(&ks) != assigned(variant, n) { fail!("impl-vs-oracle", "keyspace {n}: filter installed = {} but the assigner says {}", !assigned(variant, n), assigned(variant, n)); }
+        { use fjall::AbstractTree; if ks.tree.tree_config().compaction_filter_factory.is_some() != assigned(variant, n) { fail!("impl-vs-oracle", "keyspace {n}: the tree's configuration has a filter factory = {} but the assigner says {}", !assigned(variant, n), assigned(variant, n)); } }
         ids.insert(n, ks.id());
         kss.insert(n, ks);
         st.insert(n, BTreeMap::new());
@@ -183,6 +184,7 @@ fn run_case(seed: u64, lean: &mut Lean, hist: &mut BTreeMap<String, u64>, sample
                 for nn in names {
                     let k2 = dbref!().keyspace(nn, KeyspaceCreateOptions::default).unwrap();
                     if fjall::verif::keyspace_has_compaction_filter(&k2) != assigned(variant, nn) { fail!("impl-vs-oracle", "after reopen keyspace {nn}: filter installed = {} but the assigner says {}", !assigned(variant, nn), assigned(variant, nn)); }
+                    { use fjall::AbstractTree; if k2.tree.tree_config().compaction_filter_factory.is_some() != assigned(variant, nn) { fail!("impl-vs-oracle", "after reopen keyspace {nn}: the tree's configuration has a filter factory = {} but the assigner says {}", !assigned(variant, nn), assigned(variant, nn)); } }
                     kss.insert(nn, k2);
                     diverged.insert(nn, true); // the Mvcc model run has no reopen
                     // region of known finding F13-remove (probed only by the stored witness below):
@@ -254,6 +256,45 @@ fn run_case(seed: u64, lean: &mut Lean, hist: &mut BTreeMap<String, u64>, sample
     (fails, nontrivial, h)
 }
 
+/// The filter acts in a keyspace whatever its other options are: keyspaces created with non-default options
+/// (FIFO strategy with a limit that never evicts, key-value separation, a small memtable) get the filter assigned by
+/// name, one memtable is flushed and the keyspace compacted completely; the same after a reopen.
+fn options_probe() -> Option<Failure> {
+    use fjall::AbstractTree;
+    let scratch = Scratch::new("fltopt");
+    let dir = scratch.join("db");
+    let mk: Vec<(&str, Box<dyn Fn() -> KeyspaceCreateOptions>)> = vec![
+        ("f-fifo", Box::new(|| KeyspaceCreateOptions::default().compaction_strategy(Arc::new(fjall::compaction::Fifo::new(u64::MAX / 4, None))))),
+        ("f-blob", Box::new(|| KeyspaceCreateOptions::default().with_kv_separation(Some(fjall::KvSeparationOptions::default().separation_threshold(1))))),
+        ("f-small", Box::new(|| KeyspaceCreateOptions::default().max_memtable_size(1 << 16))),
+        ("p-fifo", Box::new(|| KeyspaceCreateOptions::default().compaction_strategy(Arc::new(fjall::compaction::Fifo::new(u64::MAX / 4, None))))),
+    ];
+    for round in 0..2 {
+        let db = open(&dir, 1).ok()?; // variant 1: names starting with 'f' are filtered
+        for (name, opts) in &mk {
+            let ks = db.keyspace(name, || opts()).ok()?;
+            let has = name.starts_with('f');
+            if ks.tree.tree_config().compaction_filter_factory.is_some() != has {
+                return Some(Failure { kind: "impl-vs-oracle", detail: format!("keyspace {name} (round {round}: {}): the tree's configuration has a filter factory = {} but the assigner says {has}", if round == 0 { "created" } else { "recovered" }, !has), witness: None });
+            }
+            let tag = format!("v{round}");
+            for k in ["k0", "r0", "x0"] { ks.insert(k, &tag).ok()?; }
+            if !ks.rotate_memtable().ok()? { return None; }
+            let mut guard = 0;
+            while fjall::verif::queued_worker_messages(&db) > 0 && guard < 40 { guard += 1; if fjall::verif::verif_worker_step(&db).is_err() { return None; } }
+            if ks.major_compact().is_err() { return None; }
+            let got: Vec<Option<Vec<u8>>> = ["k0", "r0", "x0"].iter().map(|k| ks.get(k).ok().flatten().map(|v| v.to_vec())).collect();
+            let want: Vec<Option<Vec<u8>>> = if has { vec![Some(tag.clone().into_bytes()), None, Some(b"REPL".to_vec())] } else { vec![Some(tag.clone().into_bytes()); 3] };
+            if got != want {
+                return Some(Failure { kind: "impl-vs-oracle", detail: format!("keyspace {name} (round {round}, {}): after flushing everything and major_compact k0 / r0 / x0 read {:?}, expected {:?}", if has { "filter assigned" } else { "no filter" }, got.iter().map(|x| x.as_ref().map(|v| String::from_utf8_lossy(v).to_string())).collect::<Vec<_>>(), want.iter().map(|x| x.as_ref().map(|v| String::from_utf8_lossy(v).to_string())).collect::<Vec<_>>()), witness: None });
+            }
+        }
+    }
+    OPTIONS_PROBE_COMPLETED.store(true, std::sync::atomic::Ordering::Release);
+    None
+}
+static OPTIONS_PROBE_COMPLETED: std::sync::atomic::AtomicBool = std::sync::atomic::AtomicBool::new(false);
+
 /// stored witness of known finding F13-remove
 fn witness_f13_remove() -> Option<Failure> {
     let scratch = Scratch::new("f13");
@@ -297,6 +338,8 @@ fn main() {
     let mut hist = BTreeMap::new();
     let mut cases = 0;
     if let Some(f) = witness_f13_remove() { all.push((0, f)); }
+    if let Some(f) = options_probe() { all.push((0, f)); }
+    *hist.entry(if OPTIONS_PROBE_COMPLETED.load(std::sync::atomic::Ordering::Acquire) { "options-probe-completed".to_string() } else { "options-probe-stopped-early".to_string() }).or_insert(0) += 1;
     for cs in seeds {
         let res = std::panic::catch_unwind(std::panic::AssertUnwindSafe(|| run_case(cs, &mut lean, &mut hist, &mut samples, thorough)));
         cases += 1;
